@@ -91,6 +91,10 @@ pub fn payload(mode: Mode, len: usize, strict_class: bool) -> BoxedStrategy<(Vec
             // well-formed UTF-8 text of exactly `len` bytes (what users outside ASCII pass): accented Latin, Greek,
             // Cyrillic, CJK, emoji in several mixes
             2 => utf8_text(len).prop_map(|v| (v, "byte_utf8_text")),
+            // ordinary content with one special token (byte-order mark, line end, NUL, URI scheme, escape, ...)
+            2 => with_token(prop_oneof![vec(b'a'..=b'z', len), vec(b'0'..=b'9', len), vec(0usize..45, len).prop_map(|v| v.into_iter().map(|i| ALNUM_SET[i]).collect()), utf8_text(len)].boxed()).prop_map(|v| (v, "byte_with_token")),
+            // runs of one character class each (digits / 45-set / other) with lengths at chunk sizes
+            1 => class_runs_of(len).prop_map(|v| (v, "byte_class_runs")),
             // narrower classes: only stay as they are when the mode is forced (strict_class re-classes them)
             1 => vec(b'0'..=b'9', len).prop_map(|v| (v, "byte_digits_only")),
             1 => vec(0usize..45, len).prop_map(|v| (v.into_iter().map(|i| ALNUM_SET[i]).collect(), "byte_alnum_only")),
@@ -128,6 +132,33 @@ pub fn payload(mode: Mode, len: usize, strict_class: bool) -> BoxedStrategy<(Vec
     }
 }
 
+/// Byte sequences that software tends to treat specially: byte-order marks, line ends, NUL, escape and separator
+/// controls, AIM / ECI look-alikes, URI schemes, percent / entity escapes, number look-alikes, invisible and
+/// ill-formed UTF-8. Payload generators place one at the start, the end or inside otherwise ordinary content.
+pub const TOKENS: &[&[u8]] = &[
+    b"\xEF\xBB\xBF", b"\xFF\xFE", b"\xFE\xFF", b"\x00", b"\r\n", b"\n", b"\t", b"\x1b[0m", b"\x1d", b"\x1e", b"\x04", b"\x7f",
+    b"]Q1", b"]Q3", b"\\000026", b"http://", b"https://", b"HTTP://", b"www.", b"mailto:", b"tel:", b"WIFI:", b"BEGIN:VCARD", b"data:",
+    b"%00", b"%EF%BB%BF", b"&amp;", b"&#x", b"<", b">", b"\"", b"'", b"\\", b"0x", b"+", b"-", b".", b" ", b"1e9", b"NaN", b"null",
+    b"\xC2\xA0", b"\xE2\x80\x8B", b"\xE2\x80\x8F", b"\xE2\x80\xA8", b"\xF0\x9F\x98\x80", b"\x80", b"\xC0\x80", b"\xED\xA0\x80", b"\xF4\x90\x80\x80", b"\xFF",
+];
+
+/// `base` with one token written over its start (half of the cases), its end, or a generated position (same length).
+pub fn with_token(base: BoxedStrategy<Vec<u8>>) -> BoxedStrategy<Vec<u8>> {
+    (base, 0usize..TOKENS.len(), 0usize..4, any::<u16>())
+        .prop_map(|(mut v, t, place, pos)| {
+            let tok = TOKENS[t];
+            let k = tok.len().min(v.len());
+            let at = match place {
+                0 | 1 => 0,
+                2 => v.len() - k,
+                _ => pick(pos, v.len() - k + 1),
+            };
+            v[at..at + k].copy_from_slice(&tok[..k]);
+            v
+        })
+        .boxed()
+}
+
 /// Well-formed UTF-8 text of exactly `len` bytes. The script mix is drawn per text: ASCII with accented Latin-1
 /// letters (U+00A0..U+00FF), Latin-1 letters only, Latin Extended / Greek / Cyrillic (two-byte), CJK (three-byte),
 /// emoji (four-byte), or everything mixed; the tail is filled with ASCII when the next character does not fit.
@@ -156,6 +187,39 @@ pub fn utf8_text(len: usize) -> BoxedStrategy<Vec<u8>> {
                 out.extend_from_slice(e);
             } else {
                 out.push(b'a' + (k % 26) as u8);
+            }
+        }
+        out
+    })
+    .boxed()
+}
+
+/// Exactly `len` bytes made of runs of one character class each (digits, the 45-set, other bytes); run lengths 1..9,
+/// 2^k-1 / 2^k / 2^k+1 (k = 2..12) or generated; constant or varied content per run.
+pub fn class_runs_of(len: usize) -> BoxedStrategy<Vec<u8>> {
+    let run = (0usize..3, prop_oneof![3 => 1usize..10, 5 => (2u32..=12, 0usize..3).prop_map(|(k, d)| (1usize << k) + d - 1), 2 => 10usize..700], any::<bool>(), any::<u8>());
+    (vec(run, 1..6), vec(any::<u8>(), len.min(64))).prop_map(move |(runs, noise)| {
+        let mut out = Vec::with_capacity(len);
+        let mut i = 0usize;
+        while out.len() < len {
+            let (class, rl, constant, seed) = runs[i % runs.len()];
+            i += 1;
+            for j in 0..rl {
+                if out.len() >= len {
+                    break;
+                }
+                let x = if constant { seed } else { seed.wrapping_add(noise[(out.len() + j) % noise.len().max(1)]).wrapping_mul(31) };
+                out.push(match class {
+                    0 => b'0' + x % 10,
+                    1 => ALNUM_SET[10 + (x as usize) % 35],
+                    _ => {
+                        let mut b = x;
+                        while alnum_value(b).is_some() {
+                            b = b.wrapping_add(0x61);
+                        }
+                        b
+                    }
+                });
             }
         }
         out
@@ -608,5 +672,25 @@ pub fn realistic_payload() -> BoxedStrategy<Vec<u8>> {
         "[一-龥]{2,30}",
         (word, "[0-9a-f]{24,40}").prop_map(|(a, h)| format!("{}/{}", a, h)),
     ];
-    s.prop_map(|x| x.into_bytes()).boxed()
+    (s, 0usize..16, 0usize..TOKENS.len()).prop_map(|(x, where_, t)| {
+        let mut v = x.into_bytes();
+        match where_ {
+            // a special token in front of / behind the text (a byte-order mark from a Windows editor, a trailing line end ...)
+            0 => {
+                let mut w = TOKENS[t].to_vec();
+                w.extend_from_slice(&v);
+                v = w;
+            }
+            1 => v.extend_from_slice(TOKENS[t]),
+            2 => {
+                let mut w = b"\xEF\xBB\xBF".to_vec();
+                w.extend_from_slice(&v);
+                v = w;
+            }
+            3 => v.extend_from_slice(b"\r\n"),
+            _ => {}
+        }
+        v
+    })
+    .boxed()
 }
